@@ -281,4 +281,640 @@ theorem linv_decide {own : String} {s s' : LState} {e : Env} {v : Snap} (h : LIn
         subst hrest
         simp [hc] at hcons
       · exact hstale hfresh
+
+theorem linv_merge {own : String} {s s' : LState} (h : LInv own s)
+    (hs : lstep own s (.base .mergePatch) = some s') : LInv own s' := by
+  obtain ⟨hm, hq, j1, jr, j3, j4, j5, j6⟩ := h
+  simp only [lstep] at hs
+  cases hb : step own s.base .mergePatch with
+  | none => simp [hb] at hs
+  | some b =>
+    simp only [hb, Option.map_some, Option.some.injEq] at hs
+    subst hs
+    have hq' := qok_enqueue (l := .mergePatch) hq hb
+    unfold step at hb
+    split at hb
+    · cases hb
+    simp only [stepMerge] at hb
+    split at hb
+    · next p hp =>
+      split at hb
+      · next hmerge =>
+        obtain ⟨hr1, hr2, hr3, hr4⟩ := jr p hp
+        have hvr : p.rvTest = s.cycViewRv := hr3 hmerge
+        cases hmc : p.mergeChanges
+        · -- the merge patch changes nothing
+          simp only [hmc, Bool.false_eq_true, if_false] at hb
+          cases hb
+          constructor
+          · exact hm
+          · exact hq'
+          · intro hp'; simp at hp'
+          · intro p' hp'
+            simp only [Option.some.injEq] at hp'; subst hp'
+            exact ⟨by simp only; omega, Nat.le_refl _, fun h => by simp at h, fun _ => rfl⟩
+          · intro p' _ hc
+            simpa using hc
+          · intro p' hp' hrv
+            simp only [Option.some.injEq] at hp'; subst hp'
+            simp only at hrv ⊢
+            have hview : p.view = s.base.fins := hr4 (by omega)
+            rw [← hview]
+            exact j4 p hp hrv
+          · intro p' _ hrv
+            simp only at hrv
+            exact enqueue_ne_nil_of_ne (j5 p hp hrv)
+          · intro p' hp' hnil hd hw
+            simp only [Option.some.injEq] at hp'; subst hp'
+            exact enqueue_ne_nil_of_ne (j6 p hp hnil hd hw)
+        · simp only [hmc, if_true] at hb
+          cases hb
+          have hbump : s.base.rv + 1 ≠ s.base.rv := by omega
+          constructor
+          · exact hm
+          · exact hq'
+          · intro hp'; simp at hp'
+          · intro p' hp'
+            simp only [Option.some.injEq] at hp'; subst hp'
+            exact ⟨by simp only; omega, Nat.le_refl _, fun h => by simp at h, fun _ => rfl⟩
+          · intro p' _ _
+            simp only; omega
+          · intro p' _ hrv
+            simp only at hrv; omega
+          · intro p' _ _
+            exact enqueue_ne_nil_of_bump hbump
+          · intro p' _ _ _ _
+            exact enqueue_ne_nil_of_bump hbump
+      · cases hb
+    · cases hb
+
+theorem linv_touch {own : String} {s s' : LState} (h : LInv own s)
+    (hs : lstep own s .touch = some s') : LInv own s' := by
+  obtain ⟨hm, hq, j1, jr, j3, j4, j5, j6⟩ := h
+  simp only [lstep] at hs
+  split at hs
+  · next hc =>
+    simp only [Bool.and_eq_true, Option.isNone_iff_eq_none] at hc
+    have hp := hc.2
+    cases hb : step own s.base (.write s.base.matchDel s.base.matchDmn) with
+    | none => simp [hb] at hs
+    | some b =>
+      simp only [hb, Option.map_some, Option.some.injEq] at hs
+      subst hs
+      unfold step at hb
+      split at hb
+      · cases hb
+      cases hb
+      constructor
+      · exact hm
+      · exact qok_push hq rfl
+      · intro _ _; left; simp
+      all_goals (intro p hp'; simp only at hp'; rw [hp] at hp'; cases hp')
+  · cases hs
+
+theorem linv_restart {own : String} {s s' : LState} (_h : LInv own s)
+    (hs : lstep own s (.base .restart) = some s') : LInv own s' := by
+  simp only [lstep] at hs
+  cases hb : step own s.base .restart with
+  | none => simp [hb] at hs
+  | some b =>
+    simp only [hb, Option.map_some, Option.some.injEq] at hs
+    subst hs
+    unfold step at hb
+    split at hb
+    · cases hb
+    cases hb
+    constructor
+    · rfl
+    · refine ⟨fun v hv => ?_, fun _ => ⟨snap { s.base with mem := [], pending := none, dmnLive := false, dmnForever := false }, rfl, rfl⟩⟩
+      simp only [List.mem_singleton] at hv; subst hv
+      exact ⟨Nat.le_refl _, fun _ => rfl⟩
+    · intro _ _; left; simp
+    all_goals (intro p hp'; simp at hp')
+
+
+def Label.isForeign : Label → Bool
+  | .editFins _ | .mark | .toggleDel | .toggleDmn | .write _ _ | .handlerFinishes | .daemonExits _ => true
+  | _ => false
+
+theorem foreign_step_frame {own : String} {b0 b : State} {l : Label} (hl : l.isForeign = true)
+    (hs : step own b0 l = some b) :
+    b.pending = b0.pending ∧ b.mem = b0.mem ∧
+    (b.rv = b0.rv → Waiting own b → Waiting own b0) ∧ (b.rv = b0.rv → b.fins = b0.fins) := by
+  unfold step at hs
+  split at hs
+  · cases hs
+  cases l with
+  | editFins l' =>
+    simp only [stepEditFins] at hs
+    split at hs
+    · cases hs
+    · split at hs
+      · cases hs; exact ⟨rfl, rfl, fun _ h => h, fun _ => rfl⟩
+      · cases hs; exact ⟨rfl, rfl, fun h _ => by simp at h, fun h => by simp at h⟩
+  | mark =>
+    simp only [stepMark] at hs
+    split at hs
+    · cases hs; exact ⟨rfl, rfl, fun _ h => h, fun _ => rfl⟩
+    · split at hs
+      · cases hs; refine ⟨rfl, rfl, fun _ h => ?_, fun _ => rfl⟩
+        obtain ⟨h1, _, _⟩ := h; simp at h1
+      · cases hs; exact ⟨rfl, rfl, fun h _ => by simp at h, fun h => by simp at h⟩
+  | toggleDel => cases hs; exact ⟨rfl, rfl, fun h _ => by simp at h, fun h => by simp at h⟩
+  | toggleDmn => cases hs; exact ⟨rfl, rfl, fun h _ => by simp at h, fun h => by simp at h⟩
+  | write d m => cases hs; exact ⟨rfl, rfl, fun h _ => by simp at h, fun h => by simp at h⟩
+  | handlerFinishes => cases hs; exact ⟨rfl, rfl, fun _ h => h, fun _ => rfl⟩
+  | daemonExits o =>
+    simp only at hs
+    split at hs
+    · cases hs; exact ⟨rfl, rfl, fun _ h => h, fun _ => rfl⟩
+    · cases hs
+  | decide e v => cases hl
+  | mergePatch => cases hl
+  | jsonPatch f => cases hl
+  | restart => cases hl
+
+theorem lstep_foreign {own : String} {s s' : LState} {l : Label} (hl : l.isForeign = true)
+    (hs : lstep own s (.base l) = some s') :
+    ∃ b, step own s.base l = some b ∧ s' = { s with base := b, queue := enqueue s b } := by
+  have key : ∀ (o : Option State), o = step own s.base l →
+      (o.map fun b => ({ s with base := b, queue := enqueue s b } : LState)) = some s' →
+      ∃ b, step own s.base l = some b ∧ s' = { s with base := b, queue := enqueue s b } := by
+    intro o ho hm
+    cases o with
+    | none => simp at hm
+    | some b => simp only [Option.map_some, Option.some.injEq] at hm; exact ⟨b, ho.symm, hm.symm⟩
+  cases l with
+  | editFins l' => exact key _ rfl hs
+  | mark => exact key _ rfl hs
+  | toggleDel => exact key _ rfl hs
+  | toggleDmn => exact key _ rfl hs
+  | write d m => exact key _ rfl hs
+  | handlerFinishes => exact key _ rfl hs
+  | daemonExits o => exact key _ rfl hs
+  | decide e v => cases hl
+  | mergePatch => cases hl
+  | jsonPatch f => cases hl
+  | restart => cases hl
+
+theorem linv_foreign {own : String} {s s' : LState} {l : Label} (h : LInv own s) (hl : l.isForeign = true)
+    (hs : lstep own s (.base l) = some s') : LInv own s' := by
+  obtain ⟨hm, hq, j1, jr, j3, j4, j5, j6⟩ := h
+  obtain ⟨b, hb, rfl⟩ := lstep_foreign hl hs
+  obtain ⟨hp, hmem, hw, hfin⟩ := foreign_step_frame hl hb
+  have hq' := qok_enqueue hq hb
+  have hrv : b.rv = s.base.rv ∨ b.rv = s.base.rv + 1 := by
+    rcases step_frame hb with ⟨h, _⟩ | h
+    · exact Or.inl h
+    · exact Or.inr h
+  constructor
+  · show b.mem = []; rw [hmem]; exact hm
+  · exact hq'
+  · intro hpn hwait
+    by_cases hr : b.rv = s.base.rv
+    · rcases j1 (hp ▸ hpn) (hw hr hwait) with h1 | h1
+      · exact Or.inl (enqueue_ne_nil_of_ne h1)
+      · exact Or.inr h1
+    · exact Or.inl (enqueue_ne_nil_of_bump hr)
+  · intro p hpp
+    obtain ⟨a1, a2, a3, a4⟩ := jr p (hp ▸ hpp)
+    refine ⟨a1, by rcases hrv with h | h <;> (simp only; omega), a3, fun he => ?_⟩
+    simp only at he ⊢
+    rcases hrv with h | h
+    · rw [hfin h]; exact a4 (by omega)
+    · omega
+  · intro p hpp hc
+    have := j3 p (hp ▸ hpp) hc
+    obtain ⟨a1, a2, _, _⟩ := jr p (hp ▸ hpp)
+    simp only
+    rcases hrv with h | h <;> omega
+  · intro p hpp he
+    simp only at he
+    obtain ⟨a1, a2, _, _⟩ := jr p (hp ▸ hpp)
+    rcases hrv with h | h
+    · exact j4 p (hp ▸ hpp) (by omega)
+    · omega
+  · intro p hpp hne
+    simp only at hne
+    by_cases hr : b.rv = s.base.rv
+    · exact enqueue_ne_nil_of_ne (j5 p (hp ▸ hpp) (by rw [← hr]; exact hne))
+    · exact enqueue_ne_nil_of_bump hr
+  · intro p hpp hnil hd hwait
+    by_cases hr : b.rv = s.base.rv
+    · exact enqueue_ne_nil_of_ne (j6 p (hp ▸ hpp) hnil hd (hw hr hwait))
+    · exact enqueue_ne_nil_of_bump hr
+
+theorem linv_json {own : String} {s s' : LState} {f : Bool} (h : LInv own s) (hg : LGuard (.base (.jsonPatch f)))
+    (hs : lstep own s (.base (.jsonPatch f)) = some s') : LInv own s' := by
+  obtain ⟨hm, hq, j1, jr, j3, j4, j5, j6⟩ := h
+  have hf : f = false := hg
+  subst hf
+  simp only [lstep] at hs
+  cases hb : step own s.base (.jsonPatch false) with
+  | none => simp [hb] at hs
+  | some b =>
+    simp only [hb, Option.map_some, Option.some.injEq] at hs
+    have hq' := qok_enqueue (l := .jsonPatch false) hq hb
+    unfold step at hb
+    split at hb
+    · cases hb
+    simp only [stepJson] at hb
+    split at hb
+    · next p hp =>
+      split at hb
+      · cases hb
+      next hmerge =>
+      simp only [Bool.not_eq_true] at hmerge
+      obtain ⟨hr1, hr2, _, hr4⟩ := jr p hp
+      split at hb
+      · -- no ops
+        next hnoop =>
+        cases hb
+        simp only [bne_self_eq_false, Bool.false_eq_true, if_false, hp] at hs
+        subst hs
+        constructor
+        · rfl
+        · exact qok_same hq rfl rfl
+        · intro _ hw
+          show s.queue ≠ [] ∨ sleepsAfter s.cycDelays (changedUnwritten s.cycMerge s.cycChanges p.fns) = true
+          by_cases hfresh : s.base.rv = s.cycViewRv
+          · obtain ⟨h4b, h4a⟩ := j4 p hp hfresh
+            by_cases hnil : p.fns = []
+            · cases hcd : s.cycDelays
+              · exact Or.inl (j6 p hp hnil hcd hw)
+              · have hcc : s.cycChanges = false := by
+                  cases hc : s.cycChanges
+                  · rfl
+                  · exact absurd hfresh (j3 p hp hc)
+                right
+                cases hcm : s.cycMerge <;> simp [sleepsAfter, changedUnwritten, hnil, hcc]
+            · exact absurd hnoop (fns_change own p.fns p.view h4b h4a hnil)
+          · exact Or.inl (j5 p hp hfresh)
+        all_goals (intro p' hp'; simp at hp')
+      · split at hb
+        · -- rejected
+          next hrej =>
+          cases hb
+          simp only [bne_self_eq_false, Bool.false_eq_true, if_false, hp] at hs
+          subst hs
+          simp only [Bool.false_or, bne_iff_ne, ne_eq] at hrej
+          constructor
+          · exact carry_nil _
+          · exact qok_same hq rfl rfl
+          · intro _ _
+            left
+            show s.queue ≠ []
+            exact j5 p hp (by omega)
+          all_goals (intro p' hp'; simp at hp')
+        · -- accepted
+          cases hb
+          have hbump : (s.base.rv + 1 != s.base.rv) = true := by simp
+          simp only [hbump, if_true] at hs
+          subst hs
+          constructor
+          · rfl
+          · exact hq'
+          · intro _ _; left
+            exact enqueue_ne_nil_of_bump (by simp)
+          all_goals (intro p' hp'; simp at hp')
+    · cases hb
+
+theorem linv_step {own : String} {s s' : LState} {l : LLabel} (h : LInv own s) (hg : LGuard l)
+    (hs : lstep own s l = some s') : LInv own s' := by
+  cases l with
+  | touch => exact linv_touch h hs
+  | base bl =>
+    cases bl with
+    | decide e v => exact linv_decide h hs
+    | mergePatch => exact linv_merge h hs
+    | jsonPatch f => exact linv_json h hg hs
+    | restart => exact linv_restart h hs
+    | editFins x => exact linv_foreign h rfl hs
+    | mark => exact linv_foreign h rfl hs
+    | toggleDel => exact linv_foreign h rfl hs
+    | toggleDmn => exact linv_foreign h rfl hs
+    | write d m => exact linv_foreign h rfl hs
+    | handlerFinishes => exact linv_foreign h rfl hs
+    | daemonExits o => exact linv_foreign h rfl hs
+
+theorem linv_reach {own : String} {s : LState} (h : LReachG own s) : LInv own s := by
+  induction h with
+  | init hi => exact linv_init hi
+  | step _ hg hs ih => exact linv_step ih hg hs
+
+
+/-- Every step of the wake-up layer is a step of the base LTS. -/
+theorem lstep_base {own : String} {s s' : LState} {l : LLabel} (hs : lstep own s l = some s') :
+    ∃ bl, step own s.base bl = some s'.base := by
+  cases l with
+  | touch =>
+    simp only [lstep] at hs
+    split at hs
+    · cases hb : step own s.base (.write s.base.matchDel s.base.matchDmn) with
+      | none => simp [hb] at hs
+      | some b =>
+        simp only [hb, Option.map_some, Option.some.injEq] at hs
+        subst hs
+        exact ⟨_, hb⟩
+    · cases hs
+  | base bl =>
+    refine ⟨bl, ?_⟩
+    cases bl with
+    | decide e v =>
+      simp only [lstep] at hs
+      split at hs
+      · cases hs
+      · split at hs
+        · cases hs
+        · split at hs
+          · cases hs
+          · cases hb : step own s.base (.decide e v) with
+            | none => simp [hb] at hs
+            | some b => simp only [hb, Option.map_some, Option.some.injEq] at hs; subst hs; rfl
+    | jsonPatch f =>
+      simp only [lstep] at hs
+      cases hb : step own s.base (.jsonPatch f) with
+      | none => simp [hb] at hs
+      | some b =>
+        simp only [hb, Option.map_some, Option.some.injEq] at hs
+        split at hs <;> (subst hs; rfl)
+    | mergePatch =>
+      simp only [lstep] at hs
+      cases hb : step own s.base .mergePatch with
+      | none => simp [hb] at hs
+      | some b => simp only [hb, Option.map_some, Option.some.injEq] at hs; subst hs; rfl
+    | restart =>
+      simp only [lstep] at hs
+      cases hb : step own s.base .restart with
+      | none => simp [hb] at hs
+      | some b => simp only [hb, Option.map_some, Option.some.injEq] at hs; subst hs; rfl
+    | editFins x => obtain ⟨b, hb, rfl⟩ := lstep_foreign (l := .editFins x) rfl hs; exact hb
+    | mark => obtain ⟨b, hb, rfl⟩ := lstep_foreign (l := .mark) rfl hs; exact hb
+    | toggleDel => obtain ⟨b, hb, rfl⟩ := lstep_foreign (l := .toggleDel) rfl hs; exact hb
+    | toggleDmn => obtain ⟨b, hb, rfl⟩ := lstep_foreign (l := .toggleDmn) rfl hs; exact hb
+    | write d m => obtain ⟨b, hb, rfl⟩ := lstep_foreign (l := .write d m) rfl hs; exact hb
+    | handlerFinishes => obtain ⟨b, hb, rfl⟩ := lstep_foreign (l := .handlerFinishes) rfl hs; exact hb
+    | daemonExits o => obtain ⟨b, hb, rfl⟩ := lstep_foreign (l := .daemonExits o) rfl hs; exact hb
+
+theorem lreach_base {own : String} {s : LState} (h : LReach own s) : Reach own s.base := by
+  induction h with
+  | init hi => exact Reach.init hi.1
+  | step _ hs ih =>
+    obtain ⟨bl, h⟩ := lstep_base hs
+    exact Reach.step ih h
+
+theorem lreach_of_lreachG {own : String} {s : LState} (h : LReachG own s) : LReach own s := by
+  induction h with
+  | init hi => exact LReach.init hi
+  | step _ _ hs ih => exact LReach.step ih hs
+
+/-! ## Progress from a waiting, settled object -/
+
+/-- The part of the state that decides whether the finalizer is still needed. -/
+def SameReq (a b : State) : Prop :=
+  b.marked = a.marked ∧ b.matchDel = a.matchDel ∧ b.delDone = a.delDone ∧ b.dmnLive = a.dmnLive
+
+theorem settled_of_sameReq {a b : State} (h : SameReq a b) (hs : Settled a) : Settled b := by
+  obtain ⟨_, h2, h3, h4⟩ := h
+  exact ⟨fun hm => by rw [h3]; exact hs.1 (h2 ▸ hm), by rw [h4]; exact hs.2⟩
+
+theorem afterCycle_released (own : String) (s : State) (e : Env) (hmem : s.mem = [])
+    (hm : s.marked = true) (hown : own ∈ s.fins) (hset : Settled s)
+    (hc : e.consistent = true) (hod : e.otherDelays = false) (hdr : e.delReset = false) :
+    own ∉ (afterCycle own s e).fins ∧ (afterCycle own s e).mem = [] ∧ (afterCycle own s e).pending = none ∧
+    ((afterCycle own s e).fins = [] → (afterCycle own s e).gone = true) := by
+  have hb := release_bool s.matchDel s.matchDmn s.delDone s.dmnForever e.otherChanging hset.1
+  have hin : inputs own (snap s) s e = inputsB s.matchDel s.matchDmn s.delDone false s.dmnForever true true true true e.otherChanging false false := by
+    rw [inputs_eq, hset.2, hc, hod, hdr, hmem]; simp [hown, hm]
+  obtain ⟨pre, hpre⟩ := fns_snoc_allow _ hb.1 hb.2
+  have htarget : own ∉ applyFns own (s.mem ++ (decision (inputs own (snap s) s e)).fns) s.fins := by
+    rw [hin, hpre, ← List.append_assoc]
+    intro hmem'
+    have := (own_mem_applyFns_snoc own _ Fn.allow s.fins).mp hmem'
+    cases this
+  have hne : applyFns own (s.mem ++ (decision (inputs own (snap s) s e)).fns) s.fins ≠ s.fins := by
+    intro heq; rw [heq] at htarget; exact htarget hown
+  simp only [afterCycle, hne, if_false]
+  refine ⟨htarget, trivial, trivial, ?_⟩
+  intro hnil
+  simp [hm, hnil]
+
+
+theorem lrun_append (own : String) : ∀ (a b : List LLabel) (s : LState),
+    lrun own s (a ++ b) = (lrun own s a).bind (fun s' => lrun own s' b)
+  | [], b, s => by simp [lrun]
+  | l :: a, b, s => by
+    simp only [List.cons_append, lrun]
+    cases lstep own s l with
+    | none => simp
+    | some s1 => simp [lrun_append own a b s1]
+
+/-- One quiet cycle on the oldest queued event `v` (idle worker). Its base effect is that of the base LTS's
+`decide quiet v; jsonPatch` and the event is consumed. -/
+theorem lcycle_on_head (own : String) (s : LState) (v : Snap) (rest : List Snap) (hq : s.queue = v :: rest)
+    (b1 b2 : State) (h1 : step own s.base (.decide quiet v) = some b1) (h2 : step own b1 (.jsonPatch false) = some b2) :
+    ∃ s', lrun own s [.base (.decide quiet v), .base (.jsonPatch false)] = some s' ∧ s'.base = b2 ∧
+      (b2.rv = b1.rv → s'.queue = rest) := by
+  simp only [lrun, lstep, hq, bne_self_eq_false, Bool.false_eq_true, if_false, quiet, Bool.not_true, Bool.false_and] at *
+  simp only [h1, Option.map_some, Option.bind_some, h2]
+  split
+  · next hne => exact ⟨_, rfl, rfl, fun he => by simp [he] at hne⟩
+  · exact ⟨_, rfl, rfl, fun _ => rfl⟩
+
+/-- The merge patch of the cycle in flight can always be sent. -/
+theorem lstep_merge_enabled {own : String} {s : LState} {p : Pending} (hg : s.base.gone = false)
+    (hp : s.base.pending = some p) (hm : p.merge = true) :
+    ∃ s1, lstep own s (.base .mergePatch) = some s1 ∧ SameReq s.base s1.base ∧ s1.base.gone = false ∧
+      s1.base.fins = s.base.fins ∧ ∃ p1, s1.base.pending = some p1 ∧ p1.merge = false := by
+  simp only [lstep, step, hg, stepMerge, hp, hm, if_true, Bool.false_eq_true, if_false, Option.map_some]
+  exact ⟨_, rfl, ⟨rfl, rfl, rfl, rfl⟩, rfl, rfl, _, rfl, rfl⟩
+
+/-- … and so can its JSON patch; afterwards no cycle is in flight, and the object is gone only if
+the own finalizer is. -/
+theorem lstep_json_enabled {own : String} {s : LState} {p : Pending} (hg : s.base.gone = false)
+    (hp : s.base.pending = some p) (hm : p.merge = false) :
+    ∃ s2, lstep own s (.base (.jsonPatch false)) = some s2 ∧ SameReq s.base s2.base ∧
+      s2.base.pending = none ∧ (own ∈ s2.base.fins → s2.base.gone = false) := by
+  simp only [lstep, step, hg, stepJson, hp, hm, Bool.false_eq_true, if_false, Bool.false_or]
+  split
+  · simp only [Option.map_some, bne_self_eq_false, Bool.false_eq_true, if_false]
+    exact ⟨_, rfl, ⟨rfl, rfl, rfl, rfl⟩, rfl, fun _ => rfl⟩
+  · split
+    · simp only [Option.map_some, bne_self_eq_false, Bool.false_eq_true, if_false]
+      exact ⟨_, rfl, ⟨rfl, rfl, rfl, rfl⟩, rfl, fun _ => rfl⟩
+    · have : (s.base.rv + 1 != s.base.rv) = true := by simp
+      simp only [Option.map_some, this, if_true]
+      refine ⟨_, rfl, ⟨rfl, rfl, rfl, rfl⟩, rfl, ?_⟩
+      intro hown
+      simp only at hown ⊢
+      cases htn : applyFns own p.fns p.view with
+      | nil => rw [htn] at hown; cases hown
+      | cons a t => simp
+
+theorem step_decide_eq {own : String} {b b1 : State} {e : Env} {v : Snap} (h : step own b (.decide e v) = some b1) :
+    b1 = { b with dmnLive := b.dmnLive || (!v.marked && v.matchDmn && !b.dmnForever),
+                  delDone := if (decision (inputs own v b e)).handlersRun then b.delDone && !e.delReset else b.delDone,
+                  pending := some { fns := b.mem ++ (decision (inputs own v b e)).fns, rvTest := v.rv, view := v.fins,
+                                    merge := e.merge, mergeChanges := e.mergeChanges } } := by
+  unfold step at h
+  split at h
+  · cases h
+  simp only [stepDecide] at h
+  split at h
+  · cases h
+  · split at h <;> cases h
+    rfl
+
+theorem step_decide_enabled (own : String) (b : State) (e : Env) (v : Snap) (hg : b.gone = false) (hp : b.pending = none)
+    (hle : v.rv ≤ b.rv) (heq : v.rv = b.rv → v = snap b) : ∃ b1, step own b (.decide e v) = some b1 := by
+  have hguard : (!(decide (v.rv ≤ b.rv)) || (v.rv == b.rv && v != snap b)) = false := by
+    simp only [Bool.or_eq_false_iff, Bool.not_eq_false', decide_eq_true_eq, Bool.and_eq_false_iff, beq_eq_false_iff_ne,
+      ne_eq, bne_eq_false_iff_eq]
+    refine ⟨hle, ?_⟩
+    by_cases h : v.rv = b.rv
+    · exact Or.inr (heq h)
+    · exact Or.inl h
+  simp only [step, hg, Bool.false_eq_true, if_false, stepDecide, hp, Option.isSome_none, hguard]
+  exact ⟨_, rfl⟩
+
+/-- The base effect of a quiet cycle on a MARKED body (fresh or stale): the finalizer goes, or nothing
+that matters changes. -/
+theorem quiet_cycle_on_marked (own : String) (b : State) (v : Snap) (hg : b.gone = false) (hp : b.pending = none)
+    (hvm : v.marked = true) (hle : v.rv ≤ b.rv) (heq : v.rv = b.rv → v = snap b) :
+    ∃ b1 b2, step own b (.decide quiet v) = some b1 ∧ step own b1 (.jsonPatch false) = some b2 ∧ b1.rv = b.rv ∧
+      ((v.rv ≠ b.rv ∧ b2.rv = b1.rv ∧ b2.fins = b.fins ∧ b2.gone = false ∧ SameReq b b2 ∧ b2.pending = none ∧ b2.mem = []) ∨
+       (v = snap b ∧ b2 = afterCycle own b quiet)) := by
+  obtain ⟨b1, hb1⟩ := step_decide_enabled own b quiet v hg hp hle heq
+  have hb1eq := step_decide_eq hb1
+  by_cases hfresh : v.rv = b.rv
+  · have hv := heq hfresh
+    subst hv
+    have hrun := cycle_run own b quiet hg hp
+    have hl : cycleLabels b quiet = [.decide quiet (snap b), .jsonPatch false] := rfl
+    rw [hl] at hrun
+    simp only [run, hb1, Option.bind_some] at hrun
+    cases hb2 : step own b1 (.jsonPatch false) with
+    | none => simp [hb2] at hrun
+    | some b2 =>
+      simp only [hb2, Option.bind_some, Option.some.injEq] at hrun
+      exact ⟨b1, b2, hb1, hb2, by rw [hb1eq], Or.inr ⟨rfl, hrun⟩⟩
+  · have hdone : (if (decision (inputs own v b quiet)).handlersRun then b.delDone && !quiet.delReset else b.delDone) = b.delDone := by
+      split <;> simp [quiet]
+    have hlive : (b.dmnLive || (!v.marked && v.matchDmn && !b.dmnForever)) = b.dmnLive := by simp [hvm]
+    rw [hdone, hlive] at hb1eq
+    subst hb1eq
+    have hne : (b.rv != v.rv) = true := by
+      simp only [bne_iff_ne, ne_eq]; exact fun h => hfresh h.symm
+    refine ⟨_, { b with pending := none, mem := [] }, hb1, ?_, rfl, Or.inl ⟨hfresh, rfl, rfl, hg, ⟨rfl, rfl, rfl, rfl⟩, rfl, rfl⟩⟩
+    simp only [step, hg, Bool.false_eq_true, if_false, stepJson, quiet, Bool.false_or, hne, if_true, carry_nil]
+    split <;> simp
+
+
+theorem linv_lrun {own : String} : ∀ (ls : List LLabel) {s s' : LState}, LInv own s → (∀ l ∈ ls, LGuard l) →
+    lrun own s ls = some s' → LInv own s'
+  | [], s, s', h, _, hr => by simp [lrun] at hr; subst hr; exact h
+  | l :: ls, s, s', h, hg, hr => by
+    simp only [lrun] at hr
+    cases hst : lstep own s l with
+    | none => simp [hst] at hr
+    | some s1 =>
+      simp [hst] at hr
+      exact linv_lrun ls (linv_step h (hg l List.mem_cons_self) hst) (fun l' hl' => hg l' (List.mem_cons_of_mem _ hl')) hr
+
+/-- Draining the queue: an idle worker with `n ≥ 1` queued events, all of them showing the object marked,
+on a waiting and settled object: quiet cycles on the stale events change nothing, the cycle on the current
+one releases. -/
+theorem drain (own : String) : ∀ (n : Nat) (s : LState), LInv own s → s.base.pending = none →
+    Waiting own s.base → Settled s.base → (∀ v ∈ s.queue, v.marked = true) → s.queue.length = n + 1 →
+    ∃ ls s', ls.length ≤ 2 * (n + 1) ∧ (∀ l ∈ ls, LLabel.isOperator l = true) ∧ lrun own s ls = some s' ∧
+      own ∉ s'.base.fins := by
+  intro n
+  induction n with
+  | zero =>
+    intro s hI hp hw hset hmk hlen
+    obtain ⟨v, rest, hq⟩ : ∃ v rest, s.queue = v :: rest := by
+      cases hqq : s.queue with
+      | nil => rw [hqq] at hlen; simp at hlen
+      | cons v rest => exact ⟨v, rest, rfl⟩
+    have hrest : rest = [] := by rw [hq] at hlen; simpa using hlen
+    have hv := hI.q.1 v (by rw [hq]; simp)
+    obtain ⟨b1, b2, h1, h2, hb1rv, hcase⟩ := quiet_cycle_on_marked own s.base v hw.1 hp (hmk v (by rw [hq]; simp)) hv.1 hv.2
+    obtain ⟨s', hrun, hbase, _⟩ := lcycle_on_head own s v rest hq b1 b2 h1 h2
+    rcases hcase with ⟨hst, _⟩ | ⟨_, hb2⟩
+    · exfalso
+      obtain ⟨l, hl, hlrv⟩ := hI.q.2 (by rw [hq]; simp)
+      rw [hq, hrest] at hl
+      simp at hl
+      subst hl
+      exact hst hlrv
+    · refine ⟨_, s', by simp, by simp [LLabel.isOperator], hrun, ?_⟩
+      rw [hbase, hb2]
+      exact (afterCycle_released own s.base quiet hI.memNil hw.2.1 hw.2.2 hset rfl rfl rfl).1
+  | succ n ih =>
+    intro s hI hp hw hset hmk hlen
+    obtain ⟨v, rest, hq⟩ : ∃ v rest, s.queue = v :: rest := by
+      cases hqq : s.queue with
+      | nil => rw [hqq] at hlen; simp at hlen
+      | cons v rest => exact ⟨v, rest, rfl⟩
+    have hrlen : rest.length = n + 1 := by rw [hq] at hlen; simpa using hlen
+    have hv := hI.q.1 v (by rw [hq]; simp)
+    obtain ⟨b1, b2, h1, h2, hb1rv, hcase⟩ := quiet_cycle_on_marked own s.base v hw.1 hp (hmk v (by rw [hq]; simp)) hv.1 hv.2
+    obtain ⟨s', hrun, hbase, hqueue⟩ := lcycle_on_head own s v rest hq b1 b2 h1 h2
+    rcases hcase with ⟨_, hrv2, hfins, hgone, hreq, hp2, _⟩ | ⟨_, hb2⟩
+    · have hI' : LInv own s' := linv_lrun _ hI (by
+        intro l hl
+        simp only [List.mem_cons, List.mem_nil_iff, or_false] at hl
+        rcases hl with rfl | rfl
+        · trivial
+        · rfl) hrun
+      have hw' : Waiting own s'.base := by
+        rw [hbase]; exact ⟨hgone, by rw [hreq.1]; exact hw.2.1, by rw [hfins]; exact hw.2.2⟩
+      have hset' : Settled s'.base := by rw [hbase]; exact settled_of_sameReq hreq hset
+      have hq' : s'.queue = rest := hqueue hrv2
+      obtain ⟨ls, s'', hlen', hop, hrun', hrel⟩ := ih s' hI' (by rw [hbase]; exact hp2) hw' hset'
+        (by intro w hw2; rw [hq'] at hw2; exact hmk w (by rw [hq]; exact List.mem_cons_of_mem _ hw2))
+        (by rw [hq']; exact hrlen)
+      refine ⟨[.base (.decide quiet v), .base (.jsonPatch false)] ++ ls, s'', by simp; omega, ?_, ?_, hrel⟩
+      · intro l hl
+        rcases List.mem_append.mp hl with hl | hl
+        · simp only [List.mem_cons, List.mem_nil_iff, or_false] at hl
+          rcases hl with rfl | rfl <;> rfl
+        · exact hop l hl
+      · rw [lrun_append, hrun]; exact hrun'
+    · refine ⟨_, s', by simp; omega, by simp [LLabel.isOperator], hrun, ?_⟩
+      rw [hbase, hb2]
+      exact (afterCycle_released own s.base quiet hI.memNil hw.2.1 hw.2.2 hset rfl rfl rfl).1
+
+
+theorem enqueue_grow (t : LState) (b : State) :
+    (enqueue t b).length ≤ t.queue.length + 1 ∧ ∀ v ∈ enqueue t b, v ∈ t.queue ∨ v = snap b := by
+  unfold enqueue
+  split
+  · exact ⟨by simp, fun v hv => by
+      rcases List.mem_append.mp hv with hv | hv
+      · exact Or.inl hv
+      · exact Or.inr (by simpa using hv)⟩
+  · exact ⟨by omega, fun v hv => Or.inl hv⟩
+
+/-- The requests of the cycle in flight add at most one event: the new version they store. -/
+theorem request_queue_grow {own : String} {t t' : LState} {l : Label} (hl : l = .mergePatch ∨ ∃ f, l = .jsonPatch f)
+    (hs : lstep own t (.base l) = some t') :
+    t'.queue.length ≤ t.queue.length + 1 ∧ ∀ v ∈ t'.queue, v ∈ t.queue ∨ v = snap t'.base := by
+  rcases hl with rfl | ⟨f, rfl⟩
+  · simp only [lstep] at hs
+    cases hb : step own t.base .mergePatch with
+    | none => simp [hb] at hs
+    | some b =>
+      simp only [hb, Option.map_some, Option.some.injEq] at hs
+      subst hs
+      exact enqueue_grow t b
+  · simp only [lstep] at hs
+    cases hb : step own t.base (.jsonPatch f) with
+    | none => simp [hb] at hs
+    | some b =>
+      simp only [hb, Option.map_some, Option.some.injEq] at hs
+      split at hs
+      · subst hs; exact enqueue_grow t b
+      · subst hs; exact ⟨by simp, fun v hv => Or.inl hv⟩
+
 end Kopf.C06
